@@ -3,6 +3,7 @@
   to inbound processing).
 -/
 import Qfx.Lemmas.SessC04
+import Qfx.Spec.SessionTypedC20
 namespace Qfx.Sess
 open Qfx
 
@@ -836,5 +837,14 @@ theorem hb_handleLogon (s s' : Sess) (m : InMsg) (r : Option LogonErr) (h : hand
         rw [hfin, hb_logonReply]
         unfold hbAfterLogon
         rw [hq2.cfg, e3.2, hq.cfg, e1.2, hv2, e3.1, hv, e1.1]
+
+theorem C20Active.loggedOn {st : SState} (h : C20Active st) : st.loggedOn = true := by
+  rcases h with h | ⟨a, b, c, h⟩ <;> rw [h] <;> rfl
+theorem C20Pending.loggedOn {st : SState} (h : C20Pending st) : st.loggedOn = true := by
+  rcases h with h | ⟨a, b, c, h⟩ <;> rw [h] <;> rfl
+
+theorem pendingOf_connected (st : SState) (h : C20Active st) : (pendingOf st).connected = true := by
+  rcases h with h | ⟨a, b, c, h⟩ <;> rw [h] <;> rfl
+
 
 end Qfx.Sess
